@@ -1,6 +1,7 @@
-(* C04 -- owning arrays have value semantics: the storage side.  Model: Model/Life.v.
+(* C04 -- owning arrays have value semantics: the storage side AND the values.  Model: Model/Life.v.
    This file holds only the property theorems, each closed by `exact`, with Print Assumptions. *)
-From BM Require Import Base.Tactics Model.Life Proofs.LifeMonad Proofs.LifeInv Proofs.LifeOps Proofs.LifeMain Proofs.LifeFacts.
+From BM Require Import Base.Tactics Model.Life Proofs.LifeMonad Proofs.LifeInv Proofs.LifeOps Proofs.LifeMain Proofs.LifeFacts
+  Proofs.LifeVal4 Proofs.LifeVal10.
 Local Open Scope Z_scope.
 
 (* After any fault-free history (construction from values, arrays, views, ranges, initializer lists, other element types;
@@ -63,3 +64,56 @@ Theorem C04_move_leaves_empty_valid :
     get_slot s' t = Some (empty_arr cfg (a_alloc at_) PNull) /\ s_blocks s' = s_blocks s.
 Proof. exact move_ctor_transfers. Qed.
 Print Assumptions C04_move_leaves_empty_valid.
+
+(* ---- values: the machine refines the reference interpreter ----
+   abs_state s: per live array object the extensions it reports (first:size per dimension) and the flat list of the values
+   of the cells of its block (cell_val: a raw cell reads the allocator's paint, a constructed or moved-from cell its
+   value: moved-from elements keep their value in the abstraction, and no live array holds one between operations).
+   run_values folds vstep, the interpreter over (extensions, value list) pairs that never mentions blocks, cells or
+   allocators.  hist_dom: every operation is in its documented domain in the state it runs in; hist_vdom: every extensions
+   argument has D = c_rank cfg dimensions, value/offset lists have the announced length, reextent sizes are >= 0. *)
+Theorem C04_value_semantics :
+  forall cfg, (1 <= c_rank cfg)%nat -> forall (h : list lop), hist_dom cfg h (st0 None) -> hist_vdom cfg h ->
+    abs_state (snd (run_life cfg h (st0 None))) = run_values cfg h (abs_state (st0 None)).
+Proof. exact value_semantics. Qed.
+Print Assumptions C04_value_semantics.
+
+(* one commuting square per operation (26 entry points), on any state satisfying the ownership invariant *)
+Theorem C04_operation_refines :
+  forall cfg, (1 <= c_rank cfg)%nat -> forall o s s', Good cfg s -> pool_ok cfg (abs_state s) ->
+    dom_op cfg (s_arrs s) o -> val_dom cfg o -> step cfg o s = Ok tt s' -> abs_state s' = vstep cfg o (abs_state s).
+Proof. exact step_abs. Qed.
+Print Assumptions C04_operation_refines.
+
+(* after a copy, a write to the copy leaves the source's value alone (and lands in the copy) ... *)
+Theorem C04_copy_independent :
+  forall cfg, (1 <= c_rank cfg)%nat -> forall r t k v s s1 s2, Good cfg s -> pool_ok cfg (abs_state s) ->
+    dom_op cfg (s_arrs s) (OCtorCopy r t) -> step cfg (OCtorCopy r t) s = Ok tt s1 ->
+    dom_op cfg (s_arrs s1) (OWrite r k v) -> step cfg (OWrite r k v) s1 = Ok tt s2 ->
+    vget (abs_state s2) t = vget (abs_state s) t /\
+    vget (abs_state s2) r = (fst (vget (abs_state s) t), upd_nth (snd (vget (abs_state s) t)) k v).
+Proof. exact copy_then_write_copy. Qed.
+Print Assumptions C04_copy_independent.
+
+(* ... and a write to the source leaves the copy equal to the source's old value *)
+Theorem C04_copy_independent_of_source :
+  forall cfg, (1 <= c_rank cfg)%nat -> forall r t k v s s1 s2, Good cfg s -> pool_ok cfg (abs_state s) ->
+    dom_op cfg (s_arrs s) (OCtorCopy r t) -> step cfg (OCtorCopy r t) s = Ok tt s1 ->
+    dom_op cfg (s_arrs s1) (OWrite t k v) -> step cfg (OWrite t k v) s1 = Ok tt s2 ->
+    vget (abs_state s2) r = vget (abs_state s) t.
+Proof. exact copy_then_write_source. Qed.
+Print Assumptions C04_copy_independent_of_source.
+
+(* array = view of another live array (both overloads): the view's extensions (the array's own ones when they are equal)
+   and exactly the elements at the view's offsets.  The view is given by the lifecycle model's own offsets record
+   (vsrc: extensions + offsets of the elements in canonical order inside the source block); the driver computes it with
+   the address functions of Model/View.v (run_ops, er_at), the theorem holds for any offsets inside the block. *)
+Theorem C04_assign_from_view_value :
+  forall cfg, (1 <= c_rank cfg)%nat -> forall r t v mut s s', Good cfg s -> pool_ok cfg (abs_state s) ->
+    dom_op cfg (s_arrs s) (OAssignView r t v mut) -> val_dom cfg (OAssignView r t v mut) ->
+    step cfg (OAssignView r t v mut) s = Ok tt s' ->
+    vget (abs_state s') r =
+      ((if bx_eq (fst (vget (abs_state s) r)) (vs_exts v) then fst (vget (abs_state s) r) else norm_bx (vs_exts v)),
+       at_offs (snd (vget (abs_state s) t)) (vs_offs v)).
+Proof. exact assign_view_value. Qed.
+Print Assumptions C04_assign_from_view_value.
